@@ -496,8 +496,13 @@ def implementedBy(
     if spec is not None:
         # old-style __implemented__ = foo declaration
         spec = (spec, )          # tuplefy, as it might be just an int
-        spec = Implements.named(spec_name, *_normalizeargs(spec))
+        interfaces = tuple(_normalizeargs(spec))
+        spec = Implements.named(spec_name, *interfaces)
         spec.inherit = None      # old-style implies no inherit
+        # ... like the *only* forms: list what was declared (so that later
+        # declarations add to it) and remember the class (for pickling).
+        spec.declared = interfaces
+        spec._only_for = cls
         del cls.__implemented__  # get rid of the old-style declaration
     else:
         try:
@@ -712,7 +717,13 @@ class implementer:
             return ob
 
         spec_name = _implements_name(ob)
-        spec = Implements.named(spec_name, *self.interfaces)
+        interfaces = tuple(_normalizeargs(self.interfaces))
+        spec = Implements.named(spec_name, *interfaces)
+        # Like a specification made by an *only* form: it inherits from
+        # nothing, lists what was declared (so that later declarations add
+        # to it), and knows what it belongs to (so that it can be pickled).
+        spec.declared = interfaces
+        spec._only_for = ob
         try:
             ob.__implemented__ = spec
         except AttributeError:
